@@ -10,7 +10,7 @@ def plan(prop, tier, seed, t0):
     q = tier == "quick"
     # the quick config runs with TLC's action coverage (x3 run time) as the vacuity guard of the state machine shared by
     # all three configs: every invariant is of the form `pc = .. => ..`, so each build action must have been taken
-    mcs = [dict(name="f2", module="MC_F2.tla", cfg="MC_F2_q.cfg", workers=W, timeout=900, actions=("PickShape", "AddRow", "Run"))]
+    mcs = [dict(name="f2", module="MC_F2.tla", cfg="MC_F2_q.cfg", workers=W, timeout=3000, actions=("PickShape", "AddRow", "Run"))]
     if not q:
         mcs.append(dict(name="f2_t", module="MC_F2.tla", cfg="MC_F2_t.cfg", workers=W, timeout=3000))
         mcs.append(dict(name="f2_wide", module="MC_F2.tla", cfg="MC_F2_x.cfg", workers=W, timeout=3000))
